@@ -57,6 +57,7 @@ func TextFields() []TextField {
 	get := p("paths", "/pets/{id}", "get")
 	at := func(base []interface{}, xs ...interface{}) []interface{} { return append(append([]interface{}{}, base...), xs...) }
 	return []TextField{
+		{"basePath", p("basePath")},
 		{"info.title", p("info", "title")}, {"info.description", p("info", "description")}, {"info.termsOfService", p("info", "termsOfService")},
 		{"info.version", p("info", "version")}, {"info.contact.name", p("info", "contact", "name")}, {"info.contact.url", p("info", "contact", "url")},
 		{"info.contact.email", p("info", "contact", "email")}, {"info.license.name", p("info", "license", "name")}, {"info.license.url", p("info", "license", "url")},
